@@ -80,7 +80,8 @@ def run_impl(seq):
         ubm = gen.mk_gmm(uw, um, uv)
         g = GMMMachine(C, trainer="map", ubm=ubm, weights=None)
         uthr = np.broadcast_to(np.asarray(ubm.variance_thresholds, dtype=float), (C, D))
-        init_ops = [{"k": "m", "val": core.enc(um)}, {"k": "v", "val": core.enc(uv)}, {"k": "t", "val": core.enc(uthr)}, {"k": "w", "val": core.enc(uw)}]
+        # the constructor's order since the D23 fix: floors, means, variances, weights
+        init_ops = [{"k": "t", "val": core.enc(uthr)}, {"k": "m", "val": core.enc(um)}, {"k": "v", "val": core.enc(uv)}, {"k": "w", "val": core.enc(uw)}]
     else:
         ubm = None
         g = GMMMachine(C, weights=np.array(seq["w0"]))
